@@ -105,6 +105,14 @@ def dec(s, resolve=None):
         return (x for x in items)
     if tag == "range":
         return range(*s["v"])
+    if tag == "dv":
+        # a ready-made digest value: hash(salt + secret) with a salt of the given length (any length: only the
+        # library's own hashing cuts salts to the digest size)
+        import hashlib
+        from cincoconfig.fields import DigestValue
+        h = getattr(hashlib, s["alg"])
+        salt = bytes((i * 7 + 3) % 256 for i in range(s["salt_len"]))
+        return DigestValue(salt, h(salt + s["secret"].encode()).digest(), h)
     if tag == "bigstr":
         return s["c"] * s["n"]
     if resolve is not None:
